@@ -33,18 +33,18 @@ ASSUMPTIONS = ['outcomes are compared as repr(value) or (exception class, str(ex
 REPORT = ['modules', 'evaluations', 'sequential_ops', 'threaded_ops', 'thread_switches_inside_asn1tools',
           'failing_then_valid_adjacencies', 'inputs_checked_unmodified']
 FLOORS = {'quick': {'evaluations': 10000, 'threaded_ops': 3000, 'thread_switches_inside_asn1tools': 5000},
-          'thorough': {'evaluations': 200000, 'threaded_ops': 50000, 'thread_switches_inside_asn1tools': 50000}}
+          'thorough': {'evaluations': 40000, 'threaded_ops': 12000, 'thread_switches_inside_asn1tools': 20000}}
 TIMEOUT = {'quick': 1800, 'thorough': 14000}
 
 
 def shards(tier):
-    return 32 if tier == 'quick' else 128
+    return 32 if tier == 'quick' else 64
 
 
 def params(tier):
     if tier == 'quick':
         return {'modules': 4, 'ops': 36, 'thread_runs': 2}
-    return {'modules': 10, 'ops': 50, 'thread_runs': 4}
+    return {'modules': 12, 'ops': 50, 'thread_runs': 3}
 
 
 def profile(tier):
